@@ -75,6 +75,17 @@ theorem compare_iff (a b : Hash) : Hash.compare a b = true ↔ a = b := by
     simp_all
   · intro e; subst e; exact ⟨⟨rfl, rfl⟩, rfl⟩
 
+/-- `CompareHash` including nil receivers / arguments: true exactly when both are nil or both
+are the same hash (same type, same digest). In particular a nil hash equals no hash, hashes of
+different type, of different digest length or differing in one digest bit are unequal. -/
+theorem compareOpt_iff (a b : Option Hash) : Hash.compareOpt a b = true ↔ a = b := by
+  cases a <;> cases b <;> simp [Hash.compareOpt, compare_iff]
+
+example : Hash.compareOpt (some ⟨1, [1, 2]⟩) (some ⟨1, [1, 3]⟩) = false ∧
+    Hash.compareOpt (some ⟨1, [1, 2]⟩) (some ⟨2, [1, 2]⟩) = false ∧
+    Hash.compareOpt (some ⟨0, []⟩) none = false ∧ Hash.compareOpt none none = true := by
+  decide
+
 example : Hash.unmarshal (Hash.marshal ⟨3, List.replicate 32 9⟩) = some ⟨3, List.replicate 32 9⟩ := by
   decide
 
